@@ -26,3 +26,4 @@ def run(col, configs, tier):
         if facts.config.startswith('compact'):
             guarded(col, P.rule_error_units, facts)
         guarded(col, P.rule_same_base, facts)
+        guarded(col, P.rule_zero_shortcircuit, facts)
